@@ -2,7 +2,7 @@
 # usage: tools/refsweep_wt.sh [glob] [parallel]
 # Every harmless refactoring under refactors/<glob> against ALL 19 quick checks, each refactoring in its own scratch
 # worktree of /repo + scratch copy of /verif (never touches /repo or /verif). One line per (refactoring, property)
-# into refactors/SWEEP.txt: SILENT or the VIOLATION line.
+# into refactors/SWEEP.txt: SILENT or the VIOLATION line. REFSWEEP_CHECKS="04 07" restricts the checks.
 cd /verif
 glob=${1:-r*}; par=${2:-2}
 out=${SWEEP_OUT:-refactors/SWEEP.txt}
@@ -20,7 +20,7 @@ ls -d refactors/$glob/ | xargs -P $par -L 1 bash -c '
   (cd /verif && tar cf - --exclude=.git --exclude=./seeded --exclude=./refactors --exclude=./replays --exclude=./work . ) | (cd $vc && tar xf -)
   sed -i "s#=> /repo#=> $wt#" $vc/harness/go.mod; cp $wt/go.sum $vc/harness/go.sum 2>/dev/null
   cd $vc; export VERIF_REPO=$wt
-  for i in 01 02 03 04 05 06 07 08 09 10 11 12 13 14 15 16 17 18 19; do
+  for i in ${REFSWEEP_CHECKS:-01 02 03 04 05 06 07 08 09 10 11 12 13 14 15 16 17 18 19}; do
     r=$(./check C$i --tier quick 2>&1 | grep -E "^VIOLATION|broken:|disagreement:" | head -2 | cut -c1-300 | tr "\n" " ")
     if [ -z "$r" ]; then echo "$id C$i SILENT" >> /verif/'$out'; else echo "$id C$i $r" >> /verif/'$out'; fi
   done
